@@ -156,7 +156,17 @@ func mutate(r *run, f *simrt.SimFile, other *simrt.SimFile) []byte {
 	if t.Prob(1, 4) {
 		// damage below the transport encoding: one base64 run (a body or a header block) is decoded, damaged and
 		// encoded again, as a foreign or faulty producer of the documented layout would write it
-		if locs := b64Run.FindAllIndex(data, 64); len(locs) > 0 {
+		locs := b64Run.FindAllIndex(data, 64)
+		// not inside a body-file reference: the sandbox path differs from process to process
+		for i := 0; i < len(locs); {
+			ls := bytes.LastIndexByte(data[:locs[i][0]], '\n') + 1
+			if bytes.HasPrefix(bytes.TrimSpace(data[ls:locs[i][0]+1]), []byte("@")) {
+				locs = append(locs[:i], locs[i+1:]...)
+			} else {
+				i++
+			}
+		}
+		if len(locs) > 0 {
 			loc := locs[t.Choose(len(locs))]
 			if raw, err := base64.StdEncoding.DecodeString(string(data[loc[0]:loc[1]])); err == nil && len(raw) > 0 {
 				i := t.Choose(len(raw))
@@ -241,7 +251,7 @@ func confine(data []byte) []byte {
 	for i, l := range lines {
 		if tr := strings.TrimSpace(l); strings.HasPrefix(tr, "@") {
 			h := fnv.New32a()
-			h.Write([]byte(tr))
+			h.Write([]byte(strings.ReplaceAll(tr, sandbox, "<sandbox>"))) // the sandbox path differs from process to process
 			lines[i] = "@" + filepath.Join(sandbox, bodyFileName(int(h.Sum32()%8))) // body6.bin, body7.bin do not exist
 		}
 	}
